@@ -1024,11 +1024,11 @@ func findStyleAttributes(tree *utils.HTMLNode, presentationalHints bool, baseUrl
 				out = append(out, styleAttrSpec{specificity: specificity, styleAttr: checkStyleAttribute(element,
 					fmt.Sprintf("counter-reset:list-item %s;counter-increment:list-item -1", element.Get("start")))})
 			}
-		case atom.Ul:
+		case atom.Li:
 			// From https://www.w3.org/TR/css-lists-3/
 			if element.Get("value") != "" {
 				out = append(out, styleAttrSpec{specificity: specificity, styleAttr: checkStyleAttribute(element,
-					fmt.Sprintf("counter-reset:list-item %s;counter-increment:none", element.Get("value")))})
+					fmt.Sprintf("counter-set:list-item %s", element.Get("value")))})
 			}
 		}
 	}
